@@ -753,6 +753,7 @@ func VisibleThrough(readers []*index.Reader) (map[uint64]*index.Stream, error) {
 // one stream by id, and a search.
 func ViewDigest(v *manager.View, withTags bool) (string, error) {
 	var lines []string
+	var wantEarly []string // the streams whose first packet lies before the bound of the stored time query
 	var opts []manager.StreamsOption
 	if withTags {
 		opts = append(opts, manager.PrefetchAllTags())
@@ -761,6 +762,9 @@ func ViewDigest(v *manager.View, withTags bool) (string, error) {
 		o, err := ObserveStream(sc.Stream())
 		if err != nil {
 			return err
+		}
+		if sc.Stream().FirstPacket().Before(storedTimeBound) {
+			wantEarly = append(wantEarly, fmt.Sprint(o.ID))
 		}
 		l := fmt.Sprintf("%d %s", o.ID, o.Digest)
 		if withTags {
@@ -846,6 +850,15 @@ func ViewDigest(v *manager.View, withTags bool) (string, error) {
 		lookups = append(lookups, fmt.Sprintf("lookup %d finds a stream the enumeration does not show", maxID+1))
 	}
 	out := strings.Join(lines, "\n") + "\nsearch cport:1 -> " + strings.Join(found, ",") + "\nstream0=" + s0
+	// the stored time query must select exactly the enumerated streams whose first packet lies before its bound
+	sort.Slice(wantEarly, func(i, j int) bool {
+		a, _ := strconv.Atoi(wantEarly[i])
+		b, _ := strconv.Atoi(wantEarly[j])
+		return a < b
+	})
+	if strings.Join(early, ",") != strings.Join(wantEarly, ",") {
+		lookups = append(lookups, fmt.Sprintf("a search for %q (parsed earlier in this process) returns the streams [%s], the enumeration shows [%s] with a first packet before that time", "ftime::"+storedTimeText, strings.Join(early, ","), strings.Join(wantEarly, ",")))
+	}
 	if len(lookups) != 0 {
 		out += "\nLOOKUP " + strings.Join(lookups, "\nLOOKUP ")
 	}
@@ -855,6 +868,8 @@ func ViewDigest(v *manager.View, withTags bool) (string, error) {
 var _ = mc.Fatal
 
 const storedTimeText = "2020-01-01 1200+2500ms"
+
+var storedTimeBound = Base.Add(2500 * time.Millisecond)
 
 var (
 	storedOnce sync.Once
